@@ -74,19 +74,19 @@ func travWorker(c *evid.Ctx, prop string) {
 		travReport(c, prop, l, out, "controlled")
 	}
 	// Exhaustive enumeration of completion orders on tiny graphs.
-	graphs := c.Scale(160, 6000)
+	graphs := c.Scale(160, 2400)
 	er := c.R.Fork("enum")
 	allComplete := true
 	for g := 0; g < graphs && c.NumViolations() < 20; g++ {
 		seed := er.U64()
 		ch := &trav.EnumChooser{}
 		count := 0
+		cls := "tiny"
+		if !c.Quick() && g%2 == 1 {
+			cls = "small" // 4-7 nodes: schedule spaces of up to thousands
+		}
 		for {
 			gr := gen.New(seed, "graph")
-			cls := "tiny"
-			if !c.Quick() && g%2 == 1 {
-				cls = "small" // 4-7 nodes: schedule spaces of up to tens of thousands
-			}
 			net := trav.GenNet(gr, cls)
 			l := trav.NewLookup(net)
 			out := l.Run(ch, gen.New(seed, "run"), trav.Policy{Strategy: "enum"})
@@ -99,13 +99,13 @@ func travWorker(c *evid.Ctx, prop string) {
 			if out.Err != nil || !ch.Next() {
 				break
 			}
-			if count >= 20000 {
+			if limit := map[string]int{"tiny": 20000, "small": 3000}[cls]; count >= limit {
 				allComplete = false
-				c.Count("tiny graphs whose schedule space was cut off at 20000", 1)
+				c.Count(fmt.Sprintf("%s graphs whose schedule space was cut off at %d", cls, limit), 1)
 				break
 			}
 		}
-		c.Count("tiny graphs enumerated", 1)
+		c.Count(cls+" graphs enumerated", 1)
 	}
 	c.Count("all enumerated graphs had their schedule space exhausted (1=yes)", map[bool]int{true: 1, false: 0}[allComplete])
 
